@@ -181,7 +181,7 @@ def _tlc(ctx, module, cfg, workers, env_extra=None, extra=None, timeout=1800, he
     if env_extra:
         env.update(env_extra)
     jopts = env.get("JAVA_TOOL_OPTIONS", "")
-    jopts += " -Xss64m"
+    jopts += " -Xss64m -Djava.io.tmpdir=%s" % ctx.work      # TLC's own temporary directories go with the check's scratch
     if heap:
         jopts += " -Xmx%s" % heap
     env["JAVA_TOOL_OPTIONS"] = jopts.strip()
